@@ -323,7 +323,7 @@ def generate(outdir, tier='quick', repo='/repo'):
     info = {}
     for macro, crate in (('sync', 'fx_sync'), ('async', 'fx_async')):
         fxs = families(macro)
-        budget = 30 if tier == 'quick' else 400
+        budget = 80 if tier == 'quick' else 400
         extra, left = pairwise(macro, rng, budget, 1000)
         fxs += extra
         info[crate] = {'functions': len(fxs), 'pairs_left_uncovered': left}
